@@ -239,6 +239,62 @@ fn long_buffers(ctx: &Ctx, rep: &mut Report) {
     }
 }
 
+/// Wide rows: at EVERY width 2..=W, rows whose text starts after every possible run of
+/// leading blanks (and rows that end in blanks after a soft wrap), the cursor inside the
+/// text, then narrower / wider / much wider and back. Same relational oracle. Block-wise
+/// scans of a row (8, 16, 32, 64 cells at a time) have all their remainders here.
+fn wide_rows(ctx: &Ctx, rep: &mut Report) {
+    use rayon::prelude::*;
+    let wmax = ctx.tier.pick(140usize, 300usize);
+    let widths: Vec<usize> = (2..=wmax).collect();
+    let cases: u64 = widths.iter().map(|&w| w as u64).sum();
+    let bad: Vec<(usize, String)> = widths
+        .par_iter()
+        .filter_map(|&w| {
+            let r = crate::engine::guarded(|| {
+                for indent in 0..w {
+                    // row 1: `indent` blanks then "hello" (wraps when it does not fit);
+                    // row 2..: a full row of letters, soft-wrapped into blanks + "tail"
+                    let text = format!("\x1b[1;{}Hhello\r\n{}{}tail\r\nz\x1b[1;{}H", indent + 1, "A".repeat(w), " ".repeat(indent % 11), (indent + 3).min(w));
+                    let targets = [(w.max(3) - 1, 4usize), (w / 2 + 1, 4), (w + 5, 4), (w * 2 + 1, 3), (12.min(w + 1), 5)];
+                    for (c2, r2) in targets {
+                        let mut vt = build_vt(w, 4, None);
+                        let _ = vt.feed_str(&text);
+                        let mut out = Out::default();
+                        let t = format!("width {} indent {}", w, indent);
+                        if !resize_checked(&mut vt, c2, r2, &mut out, &t) || !resize_checked(&mut vt, w, 4, &mut out, &t) {
+                            let v = &out.violations[0];
+                            let d: String = v.detail.chars().take(400).collect();
+                            return Some(format!("{}x4, text after {} blanks, to {}x{} and back: {}: {}", w, indent, c2, r2, v.oracle, d));
+                        }
+                    }
+                }
+                None
+            });
+            match r {
+                Ok(None) => None,
+                Ok(Some(d)) => Some((w, d)),
+                Err(p) => Some((w, format!("width {}: panic: {}", w, p))),
+            }
+        })
+        .collect();
+    let runs = cases * 10;
+    rep.evaluations += runs;
+    rep.traces_validated += runs;
+    rep.transitions += runs;
+    rep.distinct_nontrivial += cases;
+    rep.parts.push(serde_json::json!({"part":"wide-rows","widths":widths.len(),"max_width":wmax,"width_x_indent_cases":cases,"resizes":runs,"violating":bad.len()}));
+    println!("part wide-rows: every width 2..={} x every indentation ({} cases) x 5 resize pairs, {} violating", wmax, cases, bad.len());
+    let mut sorted = bad;
+    sorted.sort();
+    for (w, d) in sorted.iter().take(2) {
+        emit_violation(ctx, rep, "C10", serde_json::json!({"part":"wide-rows","width":w,"oracle":"resize-relation","observed":d}));
+    }
+    if sorted.len() > 2 {
+        rep.violations += sorted.len() as u64 - 2;
+    }
+}
+
 fn make_sys(_tier: Tier) -> Sys {
     Sys {
         sizes: S4.to_vec(),
@@ -254,6 +310,7 @@ pub fn run(ctx: &Ctx) -> Report {
     let sys1 = Sys { sizes: S4.to_vec(), chain: 1 };
     run_part(ctx, &mut rep, &modes_part(ctx.tier, &sys1));
     long_buffers(ctx, &mut rep);
+    wide_rows(ctx, &mut rep);
     let n = rep.counters.get("seed-bfs+resize-chains.resizes_checked").copied().unwrap_or(0)
         + rep.counters.get("modes-and-region-dont-matter.resizes_checked").copied().unwrap_or(0);
     rep.evaluations += n;
@@ -269,6 +326,12 @@ pub fn run(ctx: &Ctx) -> Report {
 pub fn replay(ctx: &Ctx, v: &Value) -> bool {
     let tier = if v["tier"] == "thorough" { Tier::Thorough } else { Tier::Quick };
     let sys = make_sys(tier);
+    if v["part"] == "wide-rows" {
+        let mut rep = Report::new();
+        let c2 = Ctx { id: ctx.id.clone(), tier: Tier::Thorough, seed: 0, start: ctx.start, known: ctx.known.clone(), replay_dir: ctx.replay_dir.clone() };
+        wide_rows(&c2, &mut rep);
+        return rep.violations > 0;
+    }
     if v["part"] == "long-buffers" {
         let mut rep = Report::new();
         let c2 = Ctx { id: ctx.id.clone(), tier: Tier::Thorough, seed: 0, start: ctx.start, known: ctx.known.clone(), replay_dir: ctx.replay_dir.clone() };
